@@ -8,7 +8,6 @@ use std::collections::{BTreeMap, HashMap};
 use std::sync::atomic::{AtomicBool, AtomicU64, Ordering};
 use std::sync::{Arc, Barrier};
 
-const WRITE_LOG_SIZE: u64 = 384;
 
 fn viol(prop: &str, msg: String, params: serde_json::Value) -> Found {
     Found { property: prop.to_string(), message: format!("[{prop}] {msg}"), engine: "stress".into(), case: params, trace: vec![], avoid: vec![] }
@@ -47,7 +46,9 @@ pub fn overshoot(cap: u64, threads: usize, per_thread: u64) -> Outcome {
         }));
     }
     // between calls nothing is in flight: residents <= max_capacity + queued writes
-    let bound = cap + WRITE_LOG_SIZE;
+    // (the size of the write queue is the implementation's choice: it is read, not assumed)
+    let wq = cache.verif_write_queue_capacity() as u64;
+    let bound = cap.saturating_add(wq);
     let sampler = {
         let c = cache.clone();
         let d = Arc::clone(&done);
@@ -86,7 +87,7 @@ pub fn overshoot(cap: u64, threads: usize, per_thread: u64) -> Outcome {
     let params = serde_json::json!({"workload": "overshoot", "max_capacity": cap, "inserting_threads": threads, "inserts_per_thread": per_thread, "max_observed": max, "bound": bound, "samples": samples, "after_sync": after});
     let mut violation = None;
     if max > bound {
-        violation = Some(viol("C04", format!("with {threads} inserting threads and max_capacity {cap}, a count taken while no insert call was in progress found {max} resident entries, more than max_capacity + write queue (384) = {bound}"), params.clone()));
+        violation = Some(viol("C04", format!("with {threads} inserting threads and max_capacity {cap}, a count taken while no insert call was in progress found {max} resident entries, more than max_capacity + write queue ({wq}) = {bound}"), params.clone()));
     } else if after > cap {
         violation = Some(viol("C04", format!("after all threads stopped and sync() ran, {after} entries are resident with max_capacity {cap}"), params.clone()));
     }
@@ -884,7 +885,7 @@ pub fn mixed_h(prop: &str, threads: usize, ops: u64, nkeys: u32, cap: Option<u64
 
 // ---- worker ---------------------------------------------------------------------------
 
-pub const RULE_C04: &str = "real threads inserting distinct fresh unit-weight keys without sync while a monitor thread counts the residents at moments when no insert call is in progress (a gate makes the count atomic); every count must stay <= max_capacity + 384 (the write queue); evaluations = samples taken; non-trivial = samples that observed more than max_capacity resident entries (a real overshoot)";
+pub const RULE_C04: &str = "real threads inserting distinct fresh unit-weight keys without sync while a monitor thread counts the residents at moments when no insert call is in progress (a gate makes the count atomic); every count must stay <= max_capacity + the capacity of the write queue (read from the cache: 384); evaluations = samples taken; non-trivial = samples that observed more than max_capacity resident entries (a real overshoot)";
 pub const RULE_C16: &str = "k writer threads overwrite a fixed key set with increasing per-writer sequence numbers while m threads run full iterations; every pass must yield each key exactly once and never an older value of the same writer than an earlier pass; evaluations = passes; non-trivial = passes during which >= 1 key changed its value; plus: 2-3 threads call invalidate_all in a loop, 1-2 writers overwrite 1-3 keys, 2 threads iterate: an iteration that began after an invalidate_all had returned must not yield a value whose insert had returned before that invalidate_all was called (evaluations = yielded values, non-trivial = those yielded after a completed invalidate_all)";
 pub const RULE_MIXED: &str = "real threads issue seeded insert/get/invalidate/invalidate_all/sync/iterate on a small key set (small capacity, weigher, optional real-time ttl); after all threads stopped and sync() ran the state oracle of the property is evaluated (counters vs. physical snapshot / capacity / drop registry / structural walker); evaluations = operations issued; non-trivial is counted per 64 operations issued concurrently (every block races with the other threads' blocks)";
 pub const RULE_REWEIGH: &str = "real threads: 1-2 writers keep re-inserting their own 1-5 keys with weights from {1,2,3,5,7,12,30} while 1-2 other threads do nothing but call sync(); after all threads stopped and sync() ran: C10 counters equal the physical entries/weights, C04 resident weight <= max_capacity, C03 (capacity 1 000, everything fits) every written key is resident and a refill with exactly as many fresh unit-weight keys as there is room left is fully retained and evicts nothing; evaluations = inserts issued; non-trivial is counted per 64 inserts (each block races with the maintenance threads)";
